@@ -39,6 +39,9 @@ func main() {
 			Rule:        "1..3 crashes per run at seeded logical points: idle right after a published checkpoint / mid flow after a checkpoint with post-cut records applied / mid flow with no checkpoint in the epoch / during a checkpoint after the j-th of the 2W acknowledgements reached the job (the others held, then dropped with the dying nodes), every j; all workers killed and replaced, job redeploys from its latest completed checkpoint, reading resumes from the checkpointed cursors; oracles: at every deploy round the shadow of every key is reset to the cut of the checkpoint named in the Deploy requests (frozen at the operators' acknowledgements) and every handler invocation's supplied state must equal it (no record lost, none applied twice: seen/<id> and last/<split> entries), final state = every keyed event of the input exactly once, barrier-cut oracle on every stream, deploys only to live nodes / exactly W members / one checkpoint per round, and bounded progress: a checkpoint completes again after the recovery or a stuck-state witness is shown; non-trivial = always; distinct by (options, log)"},
 		&lib.Prop{ID: "C15", Part: "kf-partial-redeploy", Level: "fault_enumeration", NCases: n(1, 1), Run: kfPartialRedeploy,
 			Rule: "deterministic reproducer of the known finding at job level (family P): one of two workers dies with an idle pipeline, the survivor is redeployed in place with a replacement, GC runs, reading continues; the handler-side state oracle / final-state check show the loss"},
+		&lib.Prop{ID: "C12", Part: "job-redeploy-acks", Level: "exploration", NCases: n(300, 20000), Run: c12JobAcks,
+			Assumptions: []string{"the real jobs.Job and snapshot store with fake operators and source runners (the scripts of C15's fast tier)", "only C12's job-level rule is judged here; the other oracles of those scripts belong to C15"},
+			Rule:        "scripts of register / deregister / kill / heartbeat / expiry / checkpoint tick / partial acknowledgements with slow Deploy calls: while the job is deploying a new assembly (a Deploy call is parked, so Job.start is past the point where it abandons the previous assembly's checkpoint), the surviving members of the PREVIOUS assembly acknowledge the checkpoint that was in progress when it failed; that checkpoint must never be published; non-trivial = >=1 Deploy call; distinct by script hash"},
 		&lib.Prop{ID: "C15", Part: "assembly-fake", Level: "fault_enumeration", NCases: n(200, 20000), Run: c15Fake,
 			Assumptions: []string{"fast tier: the real jobs.Job (registry, liveness, assembly, snapshot store, FrozenClock) with fake operators and source runners that answer Deploy / StartCheckpoint and acknowledge on request", "'live' is what the job can know: registered and last heartbeat within the 5 s deadline on the job's clock at the moment of the call", "liveness is restated as bounded progress: after faults stop, 20 rounds of (6 s pass, heartbeats, checkpoint tick, acknowledgements) must publish a checkpoint; no progress is a violation, reported with the stuck-state witness when there is one"},
 			Rule:        "scripts of 10..50 seeded steps over W (1..3) workers plus 0..2 standbys per kind: register / deregister / kill (stops answering and heartbeating) / 3 s pass with heartbeats / 6 s pass without / checkpoint tick / all or half of the members acknowledge / next deploy to a node fails; after every step the job settles and every Deploy call seen so far must have gone to a node that was registered and live at that moment, naming exactly W distinct operators; then faults stop, fresh nodes fill up to W live of each kind, and checkpointing must resume within the bound; non-trivial = >=1 Deploy call; distinct by script hash"},
@@ -47,7 +50,7 @@ func main() {
 			Rule:        "see C01/full-restart (crash points incl. during a checkpoint after the j-th acknowledgement); C15 oracles: deployOracle + bounded progress (a checkpoint is published after the last recovery) + every record of the input processed by the recovered assembly"},
 		&lib.Prop{ID: "C14", Part: "after-scale-down", Level: "exploration", NCases: n(10, 200), Run: c14AfterScaleDown,
 			Assumptions: append([]string{"local-directory storage (the artifact code copies files)"}, clAssume...),
-			Rule: "directed variant of part savepoint: 2..4 workers with a 300-byte memtable (every operator writes several table files before the first checkpoint, few compactions), the whole job is restarted with fewer workers so that one operator inherits the tables of several former operators (equal file names in different directories), the savepoint is requested while those tables are still referenced, then everything is killed, working storage and job checkpoints are deleted and a new job starts from the savepoint URI; same oracles as part savepoint (state supplied to every handler call = shadow cut of the savepoint's checkpoint, every split resumes from its recorded position, final state = every keyed event once)"},
+			Rule:        "directed variant of part savepoint: 2..4 workers with a 300-byte memtable (every operator writes several table files before the first checkpoint, few compactions), the whole job is restarted with fewer workers so that one operator inherits the tables of several former operators (equal file names in different directories), the savepoint is requested while those tables are still referenced, then everything is killed, working storage and job checkpoints are deleted and a new job starts from the savepoint URI; same oracles as part savepoint (state supplied to every handler call = shadow cut of the savepoint's checkpoint, every split resumes from its recorded position, final state = every keyed event once)"},
 		&lib.Prop{ID: "C14", Part: "savepoint", Level: "exploration", NCases: n(20, 600), Run: c14Savepoint,
 			Assumptions: append([]string{"local-directory storage (the artifact code copies files)", "restore = a new job created with SavepointURI after every worker and the job were killed and the working storage and the job's checkpoints directory were deleted"}, clAssume...),
 			Rule:        "a job builds state (memory only or flushed, by dkv tuning; timers pending), 0..2 periodic checkpoints, then a savepoint is requested when idle / mid flow / while a periodic checkpoint is in progress with its acknowledgements held (once or twice); the job continues (more records, more checkpoints, retention); everything is killed and ALL working storage deleted; a new job starts from the savepoint URI with the same or a different worker count; oracles: the request folds into the pending checkpoint (same id, no extra StartCheckpoint), first phase undisturbed (handler-side state oracle), after the restore the shadow is the cut of the savepoint's checkpoint and every handler invocation's supplied state must equal it, every split resumes from the recorded position, pending timers fire, every keyed event of the input takes effect exactly once; non-trivial = always; distinct by (options, mode, positions)"},
